@@ -287,9 +287,9 @@ func obsVector(o lib.Obj) string {
 
 // objSource describes how an object under test is obtained (replayable).
 type objSource struct {
-	Kind   lib.Kind
-	Input  string
-	Mode   int // 0 successful decode, 1 receiver left behind by a failed decode, 2 constructor result
+	Kind  lib.Kind
+	Input string
+	Mode  int // 0 successful decode, 1 receiver left behind by a failed decode, 2 constructor result
 }
 
 func (s objSource) make() lib.Obj {
@@ -560,16 +560,45 @@ func runC15(r *Run) int {
 	// table probe before the workload
 	snap0, unstable0 := tableSnapshot(64)
 	nObj := r.Pick(20000, 200000)
-	r.Parallel(nObj, 4, func(w *W, i int) {
-		rng := r.Rng(uint64(i) + 1)
-		src := randomSource(rng)
-		n := 10 + rng.IntN(r.Pick(90, 190))
-		hseed := uint64(r.Seed)<<32 ^ uint64(i)*0x9E3779B97F4A7C15
-		runHistory(w, st, src, hseed, n)
-		if i%977 == 0 {
-			w.Sample(map[string]interface{}{"object": src.Kind.String(), "obtained": []string{"successful decode", "receiver left behind by a failed decode", "constructor"}[src.Mode], "vector": src.Input, "history_length": n})
+	// objects kept alive for the whole workload and observed again at the very end
+	type liveObj struct {
+		o    lib.Obj
+		src  objSource
+		want uint64
+	}
+	var liveMu sync.Mutex
+	var live []liveObj
+	histories := func(lo, hi int) {
+		r.Parallel(hi-lo, 4, func(w *W, j int) {
+			i := lo + j
+			rng := r.Rng(uint64(i) + 1)
+			src := randomSource(rng)
+			n := 10 + rng.IntN(r.Pick(90, 190))
+			hseed := uint64(r.Seed)<<32 ^ uint64(i)*0x9E3779B97F4A7C15
+			runHistory(w, st, src, hseed, n)
+			if i%3 == 0 { // one more object of this origin stays alive, untouched, until the end
+				o := src.make()
+				if !o.IsNil() {
+					liveMu.Lock()
+					live = append(live, liveObj{o, src, Hash(obsVector(src.make()))})
+					liveMu.Unlock()
+				}
+			}
+			if i%977 == 0 {
+				w.Sample(map[string]interface{}{"object": src.Kind.String(), "obtained": []string{"successful decode", "receiver left behind by a failed decode", "constructor"}[src.Mode], "vector": src.Input, "history_length": n})
+			}
+		})
+	}
+	histories(0, nObj/2)
+	GCStress(func() { histories(nObj/2, nObj) }) // the second half under forced garbage collections
+	// the objects that stayed alive (never queried so far) must still report what a twin reported when they were made
+	r.Parallel(len(live), 64, func(w *W, i int) {
+		w.Eval(1)
+		if got := Hash(obsVector(live[i].o)); got != live[i].want {
+			w.Violate(Violation{Monitor: "C15", Check: "an object that stayed alive (unqueried) while thousands of others were decoded and queried reports what a twin reported when it was made", Case: histCase(live[i].src, 0, 0), Observed: got, Expected: live[i].want})
 		}
 	})
+	r.Extra("objects_kept_alive_and_observed_at_the_end", len(live))
 	r.Phase("per-object histories")
 	// table probe after the workload
 	snap1, unstable1 := tableSnapshot(64)
@@ -668,7 +697,7 @@ func runC15(r *Run) int {
 	r.Extra("exported_field_mutate/query/restore/query_steps", st.mutations.Load())
 	r.Extra("objects_whose_unexported_state_fingerprint_changed_(informational,_not_judged)", st.namesChanged.Load())
 	r.Extra("process_level", map[string]int{"child_processes": K, "pairs_per_child": nPairs, "cold_single_pair_processes": nCold})
-	return r.Finish("per-object monitor: seeded random sequences (10-100 quick / 10-200 thorough) over {Score, Severity, GetError, Encode, String, BaseMetrics, TemporalMetrics, IsEmpty, report.New* in a random language, report + ExportWithString, exported embedded objects} on objects from successful decodes, receivers left behind by failed decodes and constructors (all six types): exported fields and embedded-pointer identity compared after every operation, every result compared with the first result of that (object, operation), final observation vector compared with the object's own before the history and with twins obtained before and after it; mutate-field/query/restore/query steps against a fresh twin; process level: K child processes execute the same multiset of (vector, operation) pairs in different orders with interleaved unrelated queries, plus cold single-pair processes - all digests equal; API-level snapshot of all package tables before/after; distinct non-trivial = distinct objects put through a history",
+	return r.Finish("per-object monitor: seeded random sequences (10-100 quick / 10-200 thorough) over {Score, Severity, GetError, Encode, String, BaseMetrics, TemporalMetrics, IsEmpty, report.New* in a random language, report + ExportWithString, exported embedded objects} on objects from successful decodes, receivers left behind by failed decodes and constructors (all six types): exported fields and embedded-pointer identity compared after every operation, every result compared with the first result of that (object, operation), final observation vector compared with the object's own before the history and with twins obtained before and after it; mutate-field/query/restore/query steps against a fresh twin; process level: K child processes execute the same multiset of (vector, operation) pairs in different orders with interleaved unrelated queries, plus cold single-pair processes - all digests equal; API-level snapshot of all package tables before/after; a third of the objects have a twin that stays alive and unqueried until the end of the workload and is observed then; the second half of the histories runs under forced garbage collections; distinct non-trivial = distinct objects put through a history",
 		false, int64(r.SetSize("objects")), int64(nObj), int64(nObj/2), TrustedBase)
 }
 
